@@ -36,7 +36,7 @@ type Options struct {
 
 // DefaultOptions enables every shape that compiles on the unchanged tree.
 func DefaultOptions() Options {
-	return Options{NumLeaves: 6, NumMids: 5, NumRoots: 4, OneofInValueEmbed: true, NullableEmbed: true,
+	return Options{NumLeaves: 6, NumMids: 5, NumRoots: 4, OneofInValueEmbed: true, NullableEmbed: true, EmptyAsElement: true,
 		NestedEmbedOccurence: true, TwoOneofs: true, Customs: true}
 }
 
@@ -338,6 +338,9 @@ func (x *g) msgField(vals []msgInfo, oneof int) (desc.Field, bool) {
 		if x.r.P(35) && (!m.empty || x.opt.EmptyAsElement) {
 			f.Card = "repeated"
 		}
+		if m.empty && x.opt.EmptyAsElement && x.r.P(40) {
+			f.Card = "repeated"
+		}
 		if x.r.P(50) {
 			f.Nullable = "false"
 		}
@@ -458,6 +461,17 @@ func (x *g) genMessage(name string, lower []msgInfo, embeddables []msgInfo, leve
 		}
 		m.Fields = append(m.Fields, f)
 		info.hasEmbed = true
+	} else if empties := emptyOnly(lower); level > 0 && x.opt.EmptyAsElement && len(empties) > 0 && x.r.P(12) {
+		// an embedded message without fields: its placeholder attribute lands in the embedding message
+		e := empties[x.r.Intn(len(empties))]
+		f := desc.Field{Name: x.fieldName(), Number: x.num(), Card: "single", Oneof: -1, Type: "message", TypeName: e.name, Embed: true, Comment: x.comment()}
+		if x.opt.NullableEmbed && x.r.P(50) {
+			f.Nullable = ""
+		} else {
+			f.Nullable = "false"
+		}
+		m.Fields = append(m.Fields, f)
+		info.hasEmbed = true
 	}
 	// shuffle declaration order a little (oneof members need not be contiguous in descriptors, but protoc keeps them so)
 	return m, info
@@ -519,6 +533,10 @@ func GenCase(r *driver.Rng, opt Options) (*desc.Case, *Meta) {
 	for _, m := range roots {
 		cfg.Types = append(cfg.Types, m.name)
 		x.meta.Roots = append(x.meta.Roots, m.name)
+	}
+	if empties := emptyOnly(leaves); opt.EmptyAsElement && len(empties) > 0 && x.r.P(35) { // a message without fields selected as a root type
+		cfg.Types = append(cfg.Types, empties[0].name)
+		x.meta.Roots = append(x.meta.Roots, empties[0].name)
 	}
 	if x.r.P(30) && len(mids) > 0 { // a mid-level message selected as a root type as well
 		m := mids[x.r.Intn(len(mids))]
